@@ -468,11 +468,23 @@ fn cli_conformance(rep: &Report) {
     let seed = rep.seed;
     let pws = ["pw", "pw\n", "pw\r\n", " pw ", "p\u{e4}ss", "", "\n"];
     let p = plaintext(seed ^ 0x6a, 70);
-    pws.par_iter().for_each(|pw| {
+    let mut jobs = vec![];
+    for pw in pws {
+        for pre in [false, true] {
+            jobs.push((pw, pre));
+        }
+    }
+    jobs.par_iter().for_each(|&(pw, pre)| {
+        let pw = &pw;
         rep.eval(2);
-        rep.nontrivial(format!("cli-conf-{:?}", pw).as_bytes());
+        rep.nontrivial(format!("cli-conf-{:?}-{}", pw, pre).as_bytes());
         let attempt = || -> Result<(), String> {
             let sc = Scratch::new();
+            if pre {
+                // both output paths already hold longer files: what the tool leaves there must still be exactly the file
+                sc.write("out.bin", &vec![b'Q'; 5000]);
+                sc.write("cli.ktl", &vec![b'Q'; 5000]);
+            }
             let salt = derive32(seed, "c06-cli-salt");
             let reff = r::write_pass_file_with_key(&r::pass_key(pw.as_bytes(), &salt), &salt, &p, &[70]);
             sc.write("ref.ktl", &reff);
@@ -496,7 +508,7 @@ fn cli_conformance(rep: &Report) {
         };
         if attempt().is_err() {
             if let Err(e) = attempt() {
-                rep.violation("cli/password-file-conformance", json!({"kind":"cli-conf","pw":pw}), e);
+                rep.violation(if pre { "cli/password-file-conformance-preexisting-output" } else { "cli/password-file-conformance" }, json!({"kind":"cli-conf","pw":pw,"preexisting_output":pre}), e);
             }
         }
     });
